@@ -90,17 +90,18 @@ def model_check_rules(p, tag):
     return st, len(rules)
 
 
-def rw_trace(tier, tag, p=3, runs=None):
+def rw_trace(tier, tag, p=3, runs=None, variant="default"):
     """record rewriting runs with the real library and validate them with TLC; returns
     (bad obligations, panic findings, tlc stats, recorder summary, trace lines)"""
     path, _ = _rules_for(p, tag)
     runs = runs or (600 if tier == "quick" else 6000)
-    trace = os.path.join(OUT, "tlc", "%s_rw_p%d.ndjson" % (tag, p))
-    recs = jsonl(run_bin("default", "rw_record", [path, trace, runs]))
+    vtag = "" if variant == "default" else "_" + variant.replace("+", "_")
+    trace = os.path.join(OUT, "tlc", "%s_rw_p%d%s.ndjson" % (tag, p, vtag))
+    recs = jsonl(run_bin(variant, "rw_record", [path, trace, runs]))
     summ = [r for r in recs if r["kind"] == "summary"][0]
     panics = [r for r in recs if r["kind"] == "finding"]
     cfg = open(os.path.join(SPEC, "TraceRewrite.cfg")).read()
-    logp, st = run_tlc_root("%s_rwtrace_p%d" % (tag, p), "TraceRewrite", {"TraceP": p, "TraceNumTable": numtable(trace)}, cfg,
+    logp, st = run_tlc_root("%s_rwtrace_p%d%s" % (tag, p, vtag), "TraceRewrite", {"TraceP": p, "TraceNumTable": numtable(trace)}, cfg,
                             workers=1, env={"VERIF_TRACE": trace}, xss=True, deque=True, timeout=3000)
     if not st["ok"]:
         sys.stderr.write(open(logp, errors="replace").read()[-3000:])
@@ -136,10 +137,15 @@ def run_c03(tier):
     for p in ps + ([] if tier == "quick" else [7]):
         mstats[p], nrules = model_check_rules(p, prop)
     findings, tstats, summs, nlines, sample = [], {}, [], 0, None
-    for p in ps:
-        bad, panics, st, summ, lines = rw_trace(tier, prop, p)
-        findings += bad_to_findings(bad, lines, prop)
-        tstats[p] = st
+    # the explanations build stores syntactic terms differently (add_syn): b[x := t] through
+    # SynExprSubst reads them back, so rewriting is validated in that build as well
+    for p, variant in [(p, "default") for p in ps] + [(3, "expl")]:
+        bad, panics, st, summ, lines = rw_trace(tier, prop, p, variant=variant)
+        for f in bad_to_findings(bad, lines, prop):
+            f["variant"] = variant
+            findings.append(f)
+        summ["variant"] = variant
+        tstats["%d/%s" % (p, variant)] = st
         summs.append(summ)
         nlines += len(lines)
         cls = [json.loads(l) for l in lines if '"ev":"class"' in l]
